@@ -4,6 +4,7 @@ package main
 
 import (
 	"bufio"
+	"crypto"
 	"crypto/ecdsa"
 	"crypto/elliptic"
 	crand "crypto/rand"
@@ -81,6 +82,9 @@ type hostCase struct {
 	Want      string `json:"want"`      // host the certificate must verify for ("" = refusal expected)
 	Class     string `json:"class"`
 	Org       string `json:"org"`
+	// MayRefuse: the proxy cannot issue at this point (its CA signer fails); a
+	// refused handshake is correct, a completed one must still satisfy the oracle.
+	MayRefuse bool `json:"may_refuse,omitempty"`
 }
 
 const ldh = "abcdefghijklmnopqrstuvwxyz0123456789-"
@@ -336,6 +340,26 @@ func (e *env) config(org string, validity time.Duration) (*mitm.Config, error) {
 	return mc, nil
 }
 
+// flakySigner wraps the CA key; when fail is set every signature fails, as an
+// HSM / remote signer that became unavailable would.
+type flakySigner struct {
+	crypto.Signer
+	mu   sync.Mutex
+	fail bool
+}
+
+func (f *flakySigner) Sign(rand io.Reader, digest []byte, opts crypto.SignerOpts) ([]byte, error) {
+	f.mu.Lock()
+	fail := f.fail
+	f.mu.Unlock()
+	if fail {
+		return nil, errors.New("verif: CA signer unavailable")
+	}
+	return f.Signer.Sign(rand, digest, opts)
+}
+
+func (f *flakySigner) set(v bool) { f.mu.Lock(); f.fail = v; f.mu.Unlock() }
+
 type hsResult struct {
 	err   error // client handshake error
 	chain []*x509.Certificate
@@ -527,6 +551,9 @@ func judge(r *vh.Run, e *env, c hostCase, res hsResult) (ok bool, serial string)
 		return true, ""
 	}
 	if res.err != nil {
+		if c.MayRefuse {
+			return true, "refused"
+		}
 		r.ViolationCase(c, "C06:handshake-completes:"+classHead(c.Class), "handshake failed: "+res.err.Error(), nil)
 		return false, ""
 	}
@@ -571,19 +598,40 @@ func classHead(cl string) string {
 // ---------------------------------------------------------------------------
 // batches
 
+var orgs = []string{"ACME, Inc.", "Martian Proxy", " Spaced  Org ", "Ünïcode Örg", "a,b;c=d+e", "x"}
+
+var orgNext int
+
+// orgFor rotates through the organizations (every child process starts with
+// the comma-bearing one), so each quick run covers all of them.
 func orgFor(rng *rand.Rand) string {
-	orgs := []string{"Martian Proxy", "Verif Org 7", "ACME, Inc.", "Ünïcode Örg", "x"}
-	return orgs[rng.Intn(len(orgs))]
+	o := orgs[orgNext%len(orgs)]
+	orgNext++
+	return o
+}
+
+// validities configured through SetValidity: the statement quantifies over the
+// time relative to a certificate's window, whatever length the operator chose.
+var validities = []time.Duration{0, 24 * time.Hour, 300 * 24 * time.Hour, 398 * 24 * time.Hour, 2 * 365 * 24 * time.Hour, 10 * 365 * 24 * time.Hour, 90 * time.Second}
+
+var validityNext int
+
+func validityFor() time.Duration {
+	v := validities[validityNext%len(validities)]
+	validityNext++
+	return v
 }
 
 func runHandshakes(r *vh.Run, e *env, batch, path string, n int) {
 	rng0 := r.Rng("c06-"+batch+"-cfg", 0)
 	org := orgFor(rng0)
-	mc, err := e.config(org, 0)
+	validity := validityFor()
+	mc, err := e.config(org, validity)
 	if err != nil {
 		r.Inconclusive("NewConfig failed", err.Error())
 		return
 	}
+	r.Class(fmt.Sprintf("config|org=%q|validity=%s|ca=%s", org, validity, e.kind))
 	var pe *proxyEnv
 	rewrite := false
 	if path == "proxy" {
@@ -685,7 +733,22 @@ func runHandshakes(r *vh.Run, e *env, batch, path string, n int) {
 func runExpiry(r *vh.Run, e *env, batch string) {
 	n := r.Pick(3, 8)
 	org := "Expiry Org"
-	mc, err := e.config(org, 3*time.Second)
+	// the CA key is handed over as a crypto.Signer that the harness can make fail
+	var flaky *flakySigner
+	if sg, ok := e.capriv.(crypto.Signer); ok {
+		flaky = &flakySigner{Signer: sg}
+	}
+	var mc *mitm.Config
+	var err error
+	if flaky != nil {
+		mc, err = mitm.NewConfig(e.ca, flaky)
+		if err == nil {
+			mc.SetOrganization(org)
+			mc.SetValidity(3 * time.Second)
+		}
+	} else {
+		mc, err = e.config(org, 3*time.Second)
+	}
 	if err != nil {
 		r.Inconclusive("NewConfig failed", err.Error())
 		return
@@ -722,6 +785,24 @@ func runExpiry(r *vh.Run, e *env, batch string) {
 	// lower bound: sleep until strictly past every NotAfter
 	if d := time.Until(last.Add(1200 * time.Millisecond)); d > 0 {
 		time.Sleep(d)
+	}
+	// (a) with the issuer unavailable: the expired cached certificate must not be
+	// served — refusing the handshake is correct, completing it with a
+	// certificate that does not verify now is the violation
+	if flaky != nil {
+		flaky.set(true)
+		for _, x := range es {
+			c := x.c
+			c.MayRefuse = true
+			r.Case(c)
+			res := handshakeDirect(mc.TLSForHost(c.Authority), c.SNI)
+			r.Eval(1)
+			if ok, st := judge(r, e, c, res); ok {
+				r.Class("direct|" + c.Class + "|cache=expired+issuer-down:" + map[bool]string{true: "refused", false: "served-valid"}[st == "refused"])
+				r.Count("expiry_issuer_down_observed", 1)
+			}
+		}
+		flaky.set(false)
 	}
 	for _, x := range es {
 		r.Case(x.c)
@@ -816,6 +897,17 @@ func run(r *vh.Run, batch string) {
 		fmt.Sscanf(batch[i+1:], "%d", &idx)
 	}
 	kind := caKinds[idx%len(caKinds)]
+	// organizations and validities rotate from a batch-dependent offset so that
+	// one quick run covers all of them across its batches
+	off := 0
+	for _, ch := range batch {
+		off += int(ch)
+	}
+	if !strings.HasPrefix(batch, "cakinds") {
+		orgNext, validityNext = off, off
+	} else {
+		validityNext = 2 // 300 d, 398 d, 2 y, 10 y over the four CA kinds
+	}
 	if strings.HasPrefix(batch, "cakinds") {
 		for _, k := range caKinds {
 			e, err := newEnvKind(k)
